@@ -132,7 +132,7 @@ Qed.
 
 Definition d_ww (x : dthread) : nat :=
   match d_pc x with
-  | DWSeg | DWLock | DWChk | DWWait | DWAsleep | DWWoken => d_k x
+  | DWSeg | DWLock | DWChk | DWWait | DWAsleep | DWWoken | DWUnlockF | DWSegF | DWYield => d_k x
   | DWSig | DWSeg2 | DWUnlock => pred (d_k x)
   | _ => 0%nat
   end.
@@ -207,18 +207,18 @@ Proof.
             cbn [pred] in *; lia).
 Qed.
 
-Lemma dinit_bal n cap need wk :
-  tsum d_ww (d_thr (dinit n cap need wk)) n = tsum d_rw (d_thr (dinit n cap need wk)) n ->
-  DBal (dinit n cap need wk).
+Lemma dinit_bal n cap nb need wk :
+  tsum d_ww (d_thr (dinit n cap nb need wk)) n = tsum d_rw (d_thr (dinit n cap nb need wk)) n ->
+  DBal (dinit n cap nb need wk).
 Proof.
   intros H. constructor; simpl.
   - intros [|t]; simpl; discriminate.
   - simpl in H. rewrite H. lia.
 Qed.
 
-Theorem d_reachable_bal n cap need wk sched : 1 <= cap ->
-  tsum d_ww (d_thr (dinit n cap need wk)) n = tsum d_rw (d_thr (dinit n cap need wk)) n ->
-  DInv (exec dsys dstep (dinit n cap need wk) sched) /\ DBal (exec dsys dstep (dinit n cap need wk) sched).
+Theorem d_reachable_bal n cap nb need wk sched : 1 <= cap ->
+  tsum d_ww (d_thr (dinit n cap nb need wk)) n = tsum d_rw (d_thr (dinit n cap nb need wk)) n ->
+  DInv (exec dsys dstep (dinit n cap nb need wk) sched) /\ DBal (exec dsys dstep (dinit n cap nb need wk) sched).
 Proof.
   intros Hc H. apply (inv_exec dsys dstep (fun s => DInv s /\ DBal s)).
   - intros s t c s' l [Hi Hb] Hs. split; [eapply dstep_inv; eauto|eapply dstep_bal; eauto].
@@ -227,16 +227,16 @@ Qed.
 
 (* Balanced usage (the reader asks for exactly the items that will be written): no blocked end
    state at all -- in particular no writer is left asleep behind a notify_one. *)
-Theorem dbuf_balanced_no_deadlock_all n cap need wk sched : 1 <= cap ->
-  tsum d_ww (d_thr (dinit n cap need wk)) n = tsum d_rw (d_thr (dinit n cap need wk)) n ->
-  let s := exec dsys dstep (dinit n cap need wk) sched in
+Theorem dbuf_balanced_no_deadlock_all n cap nb need wk sched : 1 <= cap ->
+  tsum d_ww (d_thr (dinit n cap nb need wk)) n = tsum d_rw (d_thr (dinit n cap nb need wk)) n ->
+  let s := exec dsys dstep (dinit n cap nb need wk) sched in
   (exists t, (t < n)%nat /\ d_enabled s t) \/ (forall t, (t < n)%nat -> d_done s t).
 Proof.
   intros Hc Hb s.
-  destruct (d_reachable_bal n cap need wk sched Hc Hb) as [_ [Hk Hsum]]. fold s in Hk, Hsum.
-  destruct (d_const_exec sched (dinit n cap need wk)) as [En _]. fold s in En. simpl in En.
+  destruct (d_reachable_bal n cap nb need wk sched Hc Hb) as [_ [Hk Hsum]]. fold s in Hk, Hsum.
+  destruct (d_const_exec sched (dinit n cap nb need wk)) as [En _]. fold s in En. simpl in En.
   rewrite En in Hsum.
-  destruct (dbuf_no_deadlock_all n cap need wk sched Hc) as [H|[H|[[H0 H]|[H0 H]]]]; fold s in H; try fold s in H0.
+  destruct (dbuf_no_deadlock_all n cap nb need wk sched Hc) as [H|[H|[[H0 H]|[H0 H]]]]; fold s in H; try fold s in H0.
   - left. exact H.
   - right. exact H.
   - right. assert (Zw : tsum d_ww (d_thr s) n = 0%nat).
@@ -255,7 +255,7 @@ Example abq_balanced_instance :
   let ks := fun t => match t with 0%nat => 2%nat | 1%nat => 1%nat | 2%nat => 1%nat | _ => 2%nat end in
   tsum q_pw (q_thr (qinit 4 2 1 ks)) 4 = tsum q_cw (q_thr (qinit 4 2 1 ks)) 4.
 Proof. vm_compute. reflexivity. Qed.
-Example dbuf_balanced_instance :
-  tsum d_ww (d_thr (dinit 4 2 4 (fun w => match w with 0%nat => 2%nat | _ => 1%nat end))) 4
-  = tsum d_rw (d_thr (dinit 4 2 4 (fun w => match w with 0%nat => 2%nat | _ => 1%nat end))) 4.
+Example dbuf_balanced_instance : forall nb,
+  tsum d_ww (d_thr (dinit 4 2 nb 4 (fun w => match w with 0%nat => 2%nat | _ => 1%nat end))) 4
+  = tsum d_rw (d_thr (dinit 4 2 nb 4 (fun w => match w with 0%nat => 2%nat | _ => 1%nat end))) 4.
 Proof. vm_compute. reflexivity. Qed.
